@@ -426,6 +426,8 @@ def compare_traces(job, r):
           bad.append({'cycle': k, 'phase': ph, 'port': key[0], 'elem': key[1], 'pymtl': v, 'sv': sv.get(key), 'inputs': job.cycles[k]})
   return bad
 
+SIGNED_LOOPVAR = 'yosys-signed-loopvar'       # = c03_gen.YSL; known finding C12-yosys-signed-loopvar
+
 class Verdicts:
   """turns the raw results of one job into ck.violation / ck.disagreement calls"""
   def __init__(self, ck, pid):
@@ -569,6 +571,35 @@ def run_batch(ck, be, designs, stats, ncycles, nstores, tie=True, keep=False):
   for (j, kind, m), rep in zip(owner, reps):
     if kind == 'sim': j.sim = SimReply(rep, j.mapped.observed())
     else: j.blk.append((m, rep))
+  # ---- diagnosis of output mismatches of the Yosys backend (known finding `yosys-signed-loopvar`): a design whose outputs differ is
+  #      executed once more with its `integer` LOOP-INDEX variables (read off the text: signed variables assigned by a `for` header)
+  #      taken as unsigned vectors; the mismatches that disappear are those caused by the signed evaluation of operators whose
+  #      operands are all loop variables.  Every other mismatch is reported as before.
+  for j in live: j.sim_u = None
+  if be == 'yosys':
+    again = []
+    for j in live:
+      if j.ptop is None or j.sim is None or j.sim.status != 'trace' or j.pytrace is None: continue
+      uv = {m['name']: sorted(set(m.get('signed', ())) & sp.loop_index_variables(m)) for m in j.parsed.modules}
+      if not any(uv.values()) or not compare_traces(j, j.sim): continue
+      again.append((j, sim_line(sp.design_sexp(j.parsed, uv), j.ptop['name'], j.mapped, j.cycles)))
+    if again:
+      for (j, _), rep in zip(again, drv.batch([l for _, l in again])): j.sim_u = SimReply(rep, j.mapped.observed())
+      stats['resimulated_with_unsigned_loop_variables'] = stats.get('resimulated_with_unsigned_loop_variables', 0) + len(again)
+  # ---- which update blocks lie inside the hypothesis `signSafe` of the Yosys expression / statement theorems
+  if be == 'yosys' and tie:
+    sl = []
+    for j in live:
+      if j.top2 is None: continue
+      from . import c03_rtlir as R
+      seen = set()
+      for comp, bname, is_ff, upblk in R.component_blocks(j.top2):
+        pm = module_of(j, comp)
+        if pm is None or (pm['name'], bname) in seen: continue
+        seen.add((pm['name'], bname))
+        try: sl.append(leanio.line('sv', 'safe', be, R.block_sexp(upblk, be, comp)))
+        except R.Unmodelled: pass
+    for rep in (drv.batch(sl) if sl else []): ck.hist('yosys-block-signSafe', rep)
   # ---- verdicts
   for j in jobs:
     d = j.d
@@ -650,6 +681,26 @@ def run_batch(ck, be, designs, stats, ncycles, nstores, tie=True, keep=False):
       V.report(j, 'cast-reading-dependent', {'what': "the two admissible readings of the size cast N'(e) give different outputs on this design"})
     if j.pytrace is not None and r.status == 'trace':
       bad = compare_traces(j, r)
+      if bad and j.sim_u is not None and j.sim_u.status == 'trace':
+        mk = lambda b: (b['cycle'], b['phase'], b['port'], b['elem'])
+        still = {mk(b) for b in compare_traces(j, j.sim_u)}
+        signed_only = [b for b in bad if mk(b) not in still]
+        bad = [b for b in bad if mk(b) in still]
+        if signed_only:
+          found = True
+          stats['finding-reproduced:' + SIGNED_LOOPVAR] = stats.get('finding-reproduced:' + SIGNED_LOOPVAR, 0) + 1
+          ck.violation('output-mismatch', {'finding': SIGNED_LOOPVAR}, j.case,
+                       {'what': 'output port differs between the PyMTL simulation and the emitted text under IEEE 1800 two-state semantics; the difference '
+                                'disappears when the `integer` loop variables are read as unsigned: an operator whose operands are all loop variables '
+                                "(N'(__loopvar__..) keeps the sign, 6.24.1) is evaluated signed (11.8.1)",
+                        'first': signed_only[:3], 'n_mismatches': len(signed_only),
+                        'signed loop variables': {m['name']: sorted(set(m.get('signed', ())) & sp.loop_index_variables(m)) for m in j.parsed.modules if m.get('signed')}})
+        if bad and d.get('finding') == SIGNED_LOOPVAR:
+          # what remains in a design of the labelled stream is not the known finding
+          found = True
+          V.report(j, 'output-mismatch', {'what': 'output port differs between the PyMTL simulation and the emitted text also when the loop variables are read as unsigned',
+                                          'first': bad[:3], 'n_mismatches': len(bad)}, outside=True)
+          bad = []
       bad_out = [b for b in bad if not inside(b['port'])]
       for part, outside in ((bad_out, True), ([b for b in bad if inside(b['port'])], False)):
         if part:
@@ -662,7 +713,7 @@ def run_batch(ck, be, designs, stats, ncycles, nstores, tie=True, keep=False):
       for kk, nn in m[3].items(): ck.hist('rtlir-node', kk, nn)
       if rep != 'same':
         stats['blocks_differ'] = stats.get('blocks_differ', 0) + 1
-        if not found and not d.get('finding'):
+        if (not found and not d.get('finding')) or d.get('finding') == SIGNED_LOOPVAR:
           ck.disagreement('VTr.trStmt≈' + ('VBehavioralTranslator' if be == 'verilog' else 'YosysBehavioralTranslator'),
                           {'label': d['label'], 'backend': be, 'src': d['src'], 'module': m[1], 'block': m[2]}, 'tr(model of RTLIR): ' + rep[:300], 'parsed real text')
     for m in getattr(j, 'blk_meta', []):
